@@ -63,7 +63,7 @@ type Plan struct {
 }
 
 var kinds = []string{"mkdir", "cp", "mv", "rm", "cd", "cdback", "env", "envexpand", "exists", "notexists", "execfg", "execenv", "execpwd", "execbg", "execbgshort", "wait",
-	"toolguard", "notoolguard", "stop", "skip", "fail", "negfail", "probe", "probe", "defer", "defer", "writecanary", "deferfail", "execbgsave", "worktool", "execbgchild", "tskip", "tfailnow"}
+	"toolguard", "notoolguard", "stop", "skip", "fail", "negfail", "probe", "probe", "defer", "defer", "writecanary", "deferfail", "execbgsave", "worktool", "execbgchild", "tskip", "tfailnow", "linkout"}
 
 func genPlan(t *rapid.T, tier string) any {
 	p := &Plan{SetupFail: -1}
@@ -153,6 +153,9 @@ func scriptText(i int, s Script, tool string) string {
 			foreverBg = true
 		case "deferfail":
 			fmt.Fprintf(&b, "deferfail %d\n", l.Arg)
+		case "linkout":
+			// a symbolic link, inside the work directory, to a directory that belongs to somebody else
+			fmt.Fprintf(&b, "symlink out%d -> $OUTSIDE\n", l.Arg)
 		case "tskip":
 			b.WriteString("tskip\n")
 		case "tfailnow":
@@ -245,6 +248,7 @@ type phase struct {
 	fatal   string
 	gotmp   string
 	wroot   string
+	outside string
 	end     time.Duration
 	// what the private GOTMPDIR held at the very instant the last of {the scripts, RunT itself} ended
 	endProbed bool
@@ -262,6 +266,12 @@ func execute(t *testing.T, p *Plan, dir, tag string, idx []int, tool string, kee
 	os.MkdirAll(ph.wroot, 0o777)
 	sdir := filepath.Join(dir, "scripts-"+tag)
 	os.MkdirAll(sdir, 0o777)
+	// a directory of somebody else's, with restrictive permissions, that scripts may link to
+	ph.outside = filepath.Join(dir, "outside-"+tag)
+	os.MkdirAll(filepath.Join(ph.outside, "private"), 0o700)
+	os.WriteFile(filepath.Join(ph.outside, "private", "secret.txt"), []byte("not yours\n"), 0o600)
+	os.Chmod(filepath.Join(ph.outside, "private"), 0o500)
+	os.Chmod(ph.outside, 0o500)
 	tooldir := filepath.Join(dir, "tools-"+tag)
 	os.MkdirAll(tooldir, 0o777)
 	os.WriteFile(filepath.Join(tooldir, tool), []byte("#!/bin/false\n"), 0o755)
@@ -320,6 +330,7 @@ func execute(t *testing.T, p *Plan, dir, tag string, idx []int, tool string, kee
 				}
 				add(record{name, "setupenv", "", strings.Join(vars, "\n")})
 				add(record{name, "probe", "setup-tree", listing(env.WorkDir)})
+				env.Setenv("OUTSIDE", ph.outside)
 				if sidx >= 0 && sidx < len(p.Scripts) && p.Scripts[sidx].HasTool {
 					env.Setenv("PATH", bin+string(os.PathListSeparator)+tooldir)
 				}
@@ -428,7 +439,7 @@ func norm(s, dir string) string {
 	s = timing.ReplaceAllString(s, "(T)")
 	s = toolName.ReplaceAllString(s, "tool")
 	s = strings.ReplaceAll(s, dir, "<dir>")
-	s = regexp.MustCompile(`(gotmp|wroot|scripts|tools)-[a-z0-9]+`).ReplaceAllString(s, "$1")
+	s = regexp.MustCompile(`(gotmp|wroot|scripts|tools|outside)-[a-z0-9]+`).ReplaceAllString(s, "$1")
 	s = regexp.MustCompile(`go-test-script\d+`).ReplaceAllString(s, "go-test-scriptN")
 	s = regexp.MustCompile(`script-[^\s/]+`).ReplaceAllString(s, "script-NAME") // disambiguating counters differ between batch and solo
 	return s
@@ -579,6 +590,15 @@ func run(t *testing.T, plan any, keep bool) *simcheck.Outcome {
 				out.Violate("deferred-not-run", "%s script %s: Setup's deferred function ran %d times for %d setups (failed=%v skipped=%v)", label, name, final, setup, ph.subs[k].Failed, ph.subs[k].Skipped)
 			}
 		}
+		// (4b) what lies outside the work directories is nobody's to change, however a script points at it
+		for _, d := range []string{ph.outside, filepath.Join(ph.outside, "private")} {
+			if fi, err := os.Stat(d); err != nil || fi.Mode().Perm() != 0o500 {
+				out.Violate("outside-touched", "%s: directory %s outside every work directory (scripts held symbolic links to it) now has mode %v (error %v), it had 0500", label, filepath.Base(d), fi.Mode().Perm(), err)
+			}
+		}
+		if b, err := os.ReadFile(filepath.Join(ph.outside, "private", "secret.txt")); err != nil || string(b) != "not yours\n" {
+			out.Violate("outside-touched", "%s: a file outside every work directory was changed or removed (%v)", label, err)
+		}
 		// (4) directories
 		ents, _ := os.ReadDir(ph.gotmp)
 		wents, _ := os.ReadDir(ph.wroot)
@@ -715,7 +735,7 @@ var harness = &simcheck.Harness{
 	Property: "C04",
 	Level:    "exploration",
 	Rule: "rapid draws a batch of 2-4 scripts of 2-9 lines each over the same relative names (mkdir cp mv rm cd env exists, foreground / background stub processes that create files and print their environment and cwd, background programs that exit but leave a descendant holding their output pipes for 150-450 ms, wait, " +
-		"[exec:tool] guards with per-script PATHs (a shared tool directory that only some scripts have on PATH; a $WORK/bin that every script puts on PATH and only some install the program into), stop, skip, failing and negated lines, probe and defer custom commands, custom commands that skip or fail the script directly through the T of Env.T), retention options (TestWork / WorkdirRoot), RequireUniqueNames with a duplicate entry, " +
+		"[exec:tool] guards with per-script PATHs (a shared tool directory that only some scripts have on PATH; a $WORK/bin that every script puts on PATH and only some install the program into), stop, skip, failing and negated lines, probe and defer custom commands, custom commands that skip or fail the script directly through the T of Env.T, symbolic links from the work directory to a restricted directory of somebody else's), retention options (TestWork / WorkdirRoot), RequireUniqueNames with a duplicate entry, " +
 		"a failing Setup, a script file that has vanished, optionally an earlier RunT call in the same process that asked for retention, host GORACE, verbosity, a -parallel limit and a schedule; the batch runs once, then every script runs alone; non-trivial = more context switches than scripts+2; distinct by decision-trace hash",
 	Gen:     genPlan,
 	NewPlan: func() any { return &Plan{} },
